@@ -31,7 +31,8 @@ LINE_SPECS_THOROUGH = LINE_SPECS_QUICK + [(2, 1, 1), (0, 3, 0)]
 
 
 def build_layout(I, lay_spec, line_specs, attrs):
-    pre, indent, ncomment, tagline, tagpad = lay_spec
+    pre, indent, ncomment, tagline, tagpad = lay_spec[:5]
+    stars = lay_spec[5] if len(lay_spec) > 5 else 1
     spec0, specs, spec_last = line_specs
     t0, k0 = sym_line(I, 'L0', spec0, KEY_ALPHABET, INNER_ALPHABET)
     lines = []
@@ -42,7 +43,7 @@ def build_layout(I, lay_spec, line_specs, attrs):
         keys.append((i + 1, sp, k))
     ll, kl = sym_line(I, 'LZ', spec_last, KEY_ALPHABET, INNER_ALPHABET)
     keys.append((len(specs) + 1, spec_last, kl))
-    lay = Layout(pre, indent, ncomment, tagline, tagpad, attrs, t0, lines, ll)
+    lay = Layout(pre, indent, ncomment, tagline, tagpad, attrs, t0, lines, ll, stars=stars)
     return lay, keys
 
 
@@ -304,9 +305,10 @@ def confirm(binary, v, idx):
 
 
 BOUNDS = {
-    'quick': dict(layouts=[(0, 0, 1, 0, 0), (1, 2, 3, 1, 1), (0, 0, 2, 0, 0), (0, 1, 4, 2, 2), (1, 0, 4, 3, 0), (0, 2, 2, 1, 3)],
+    'quick': dict(layouts=[(0, 0, 1, 0, 0), (1, 2, 3, 1, 1), (0, 0, 2, 0, 0), (0, 1, 4, 2, 2), (1, 0, 4, 3, 0), (0, 2, 2, 1, 3),
+                           (0, 0, 1, 0, 0, 2), (0, 1, 3, 1, 1, 3)],       # banner comments: `/** <block ..> */`, ` *** <block ..>`
               nlines=2, specs='quick', per_kind=150, validate=40),
-    'thorough': dict(layouts=[(p, ind, n, t, pad) for p in (0, 1) for ind in (0, 2) for n in (1, 2, 4) for t in range(n) for pad in (0, 3)],
+    'thorough': dict(layouts=[(p, ind, n, t, pad) for p in (0, 1) for ind in (0, 2) for n in (1, 2, 4) for t in range(n) for pad in (0, 3)] + [(0, ind, n, t, 1, st) for ind in (0, 2) for n in (1, 3) for t in range(n) for st in (2, 3)],
                      nlines=3, specs='thorough', per_kind=600, validate=150),
 }
 
